@@ -7,13 +7,35 @@ pub mod trusted_axioms {
     pub broadcast proof fn axiom_fmt_never_panics<A>()
         ensures #[trigger] vstd::std_specs::fmt::fmt_req_all::<A>()
     {}
+    // collect::<HashMap<K,V>>(): every pair is inserted in order, later keys overwrite earlier ones
+    pub open spec fn last_index_of<K, V>(s: Seq<(K, V)>, k: K) -> int
+        decreases s.len()
+    {
+        if s.len() == 0 { -1 } else if s.last().0 == k { s.len() - 1 } else { last_index_of(s.drop_last(), k) }
+    }
+    #[verifier::external_body]
+    pub broadcast proof fn axiom_hashmap_from_iter<K: std::cmp::Eq + std::hash::Hash, V>(s: Seq<(K, V)>, m: std::collections::HashMap<K, V>)
+        requires #[trigger] <std::collections::HashMap<K, V> as FromIteratorSpec<(K, V)>>::from_iter_ensures(s, m), vstd::std_specs::hash::obeys_key_model::<K>(),
+        ensures
+            forall|i: int| 0 <= i < s.len() ==> m@.contains_key(#[trigger] s[i].0),
+            forall|k: K| #[trigger] m@.contains_key(k) ==> 0 <= last_index_of(s, k) < s.len() && s[last_index_of(s, k)].0 == k && m@[k] == s[last_index_of(s, k)].1,
+    {}
+    // HashMap<&Q, V>::get(&Q): `&Q: Borrow<Q>` is the identity borrow
+    #[verifier::external_body]
+    pub broadcast proof fn axiom_contains_ref_key<Q, V>(m: Map<&Q, V>, k: &Q)
+        ensures #[trigger] vstd::std_specs::hash::contains_borrowed_key::<&Q, V, Q>(m, k) == m.contains_key(k)
+    {}
+    #[verifier::external_body]
+    pub broadcast proof fn axiom_maps_ref_key_to_value<Q, V>(m: Map<&Q, V>, k: &Q, v: V)
+        ensures #[trigger] vstd::std_specs::hash::maps_borrowed_key_to_value::<&Q, V, Q>(m, k, v) == (m.contains_key(k) && m[k] == v)
+    {}
     // std's by-value HashMap iterator obeys the (prophetic) iterator laws
     #[verifier::external_body]
     pub broadcast proof fn axiom_hm_into_iter_laws<K, V, A: std::alloc::Allocator>(it: std::collections::hash_map::IntoIter<K, V, A>)
         ensures #[trigger] it.obeys_prophetic_iter_laws(),
     {}
 }
-broadcast use {trusted_axioms::axiom_fmt_never_panics, trusted_axioms::axiom_hm_into_iter_laws,
+broadcast use {trusted_axioms::axiom_contains_ref_key, trusted_axioms::axiom_maps_ref_key_to_value, trusted_axioms::axiom_hashmap_from_iter, trusted_axioms::axiom_fmt_never_panics, trusted_axioms::axiom_hm_into_iter_laws,
                vstd::std_specs::fmt::group_fmt_axioms, vstd::std_specs::hash::group_hash_axioms};
 
 #[verifier::reject_recursive_types(A)]
